@@ -78,7 +78,21 @@ class Obligation:
 # solving
 
 
-def solve(constraints, timeout_ms=None):
+def _has_quantifier(t):
+    seen = set()
+    stack = [t]
+    while stack:
+        x = stack.pop()
+        if x.get_id() in seen:
+            continue
+        seen.add(x.get_id())
+        if z3.is_quantifier(x):
+            return True
+        stack.extend(x.children())
+    return False
+
+
+def solve(constraints, timeout_ms=None, cvc5=True):
     """Returns ('unsat'|'sat'|'unknown', backend, seconds, model_or_None)."""
     t0 = time.time()
     s = z3.Solver()
@@ -91,6 +105,8 @@ def solve(constraints, timeout_ms=None):
         return "unsat", "z3-5.1", dt, None
     if r == z3.sat:
         return "sat", "z3-5.1", dt, s.model()
+    if not cvc5:
+        return "unknown", "z3-5.1", dt, None
     # second back end: cvc5 on the same SMT-LIB text
     r2 = solve_cvc5(s)
     dt = time.time() - t0
@@ -329,6 +345,20 @@ class Explorer:
         elif status == "sat":
             self.results.append(Obligation(name, "failed", backend, dt, model=self.model_values(model), path=list(self.decisions[: self.pos])))
         else:
+            # no verdict: look for a *candidate* counter-model under a weaker path condition (quantified facts dropped);
+            # it only counts if the native replay on the real code confirms it.
+            qf = [c for c in self.pc if not _has_quantifier(c)]
+            if len(qf) < len(self.pc):
+                st2, be2, dt2, model2 = solve(qf + [z3.Not(cond)], timeout_ms=5000, cvc5=False)
+                self.solver_seconds += dt2
+                if st2 == "sat":
+                    self.results.append(Obligation(name, "failed", be2 + "(candidate)", dt + dt2, model=self.model_values(model2), path=list(self.decisions[: self.pos])))
+                    return
+            if os.environ.get("PYVC_DEBUG"):
+                sd = z3.Solver()
+                sd.add(*self.pc, z3.Not(cond))
+                os.makedirs(os.path.join(os.path.dirname(os.path.dirname(os.path.abspath(__file__))), ".scratch"), exist_ok=True)
+                open(os.path.join(os.path.dirname(os.path.dirname(os.path.abspath(__file__))), ".scratch", f"unknown-{self.name}-{name}-{len(self.results)}.smt2".replace("/", "_")), "w").write(sd.to_smt2())
             self.results.append(Obligation(name, "undecided", backend, dt, path=list(self.decisions[: self.pos]), detail="solver unknown"))
 
     def model_values(self, model):
@@ -489,6 +519,12 @@ class SymVC:
     def unreachable(self, name):
         self.ex.obligation(name, False)
 
+    def ensure_kf(self, name, cond, finding, K):
+        """Obligation with a recorded known finding: outside the recorded class K it must hold (a model there is a
+        fresh violation); inside K it is expected to fail and is matched against known_findings.json by name."""
+        self.ex.obligation(f"{name}[outside {finding}]", Implies(Not(K), cond))
+        self.ex.note("known-finding", finding)  # inside K: witnessed by the committed witness, replayed natively on every run
+
     def branch(self, c):
         if isinstance(c, bool):
             return c
@@ -549,12 +585,15 @@ class SymVC:
                 r = self.it.call_ifunc(f, args, kwargs)
             if isinstance(r, I.SGen):
                 r = self.it.consume_gen(r, sink)
-            return Outcome(result=r, trace=trace)
+            return Outcome(result=self.it.resolve(r), trace=trace)
         except I.PyExc as pe:
             return Outcome(raised=pe.exc, trace=trace)
 
     def getattr(self, obj, name):
-        return self.it.getattr_(obj, name)
+        return self.it.resolve(self.it.getattr_(obj, name))
+
+    def resolve(self, v):
+        return self.it.resolve(v)
 
     def eq(self, a, b):
         from . import lib
@@ -672,6 +711,10 @@ class NativeVC:
         self.checked.append(name)
         self.failed.append(name)
 
+    def ensure_kf(self, name, cond, finding, K):
+        self.ensure(f"{name}[outside {finding}]", Implies(Not(K), cond))
+        self.ensure(f"{name}[{finding}]", Implies(K, cond))
+
     def branch(self, c):
         return bool(c)
 
@@ -727,6 +770,9 @@ class NativeVC:
 
     def getattr(self, obj, name):
         return getattr(obj, name)
+
+    def resolve(self, v):
+        return v
 
     def eq(self, a, b):
         return a == b
